@@ -339,6 +339,11 @@ func ruleR19_1(w *World, r *Report) {
 				if role, ok := roles[f]; ok {
 					rw.printers[role] = true
 				}
+				// the formula solver of the library called in place (the printing helper was inlined)
+				if w.PkgName(f) == "bf" && f.Signature.Recv() == nil && f.Signature.Params().Len() == 1 && typeShort(f.Signature.Params().At(0).Type()) == "bf.Formula" &&
+					f.Signature.Results().Len() == 1 && typeShort(f.Signature.Results().At(0).Type()) == "map[string]bool" {
+					rw.printers["formula solver"] = true
+				}
 				if w.PkgName(f) == "main" && !hasTests[f] {
 					visitFn(f)
 				}
